@@ -10,7 +10,7 @@ Local Open Scope string_scope.
    the property.  It is stated here at full strength and NOT yet proved for every kind — see
    DESIGN.md: the generic induction over the kind tables is future work; what is proved is below. *)
 Definition C01_statement (nf : string -> json -> bool) (json_value_eq : json -> json -> Prop) : Prop :=
-  forall k j, nf k j = true -> exists j', norm gen_env j (TNamed k) = ROk j' /\ json_value_eq j' j.
+  forall k j, nf k j = true -> exists j', norm gen_env false j (TNamed k) = ROk j' /\ json_value_eq j' j.
 
 (* Every keyword the Swagger 2.0 meta-schema (and, for schemas, JSON-Schema draft 4) defines for a kind
    — including `$ref` and the ^x- vendor extensions where allowed — is both decodable and encodable by
@@ -41,7 +41,7 @@ Print Assumptions C01_transcription.
 (* non-vacuity: a schema with zero-valued validations, an unknown keyword, an extension with a nested
    payload and odd member names goes through unchanged (members re-ordered only) *)
 Example C01_example :
-  norm gen_env (JObj [("type", JStr "object"); ("minimum", JNum 0 0); ("maxLength", JNum 0 0);
+  norm gen_env false (JObj [("type", JStr "object"); ("minimum", JNum 0 0); ("maxLength", JNum 0 0);
                       ("properties", JObj [("a""b\c", JObj [("type", JStr "string")])]);
                       ("x-ext", JObj [("z", JArr [JNull; JNum 0 0]); ("a", JStr "")]); ("unknownKeyword", JBool false)])
        (TNamed "Schema")
